@@ -50,18 +50,22 @@ Definition SIG_DATAGRAM_NOT_OWN := 6%N.     (* a datagram is not decoded and rep
 Definition is_http_family (svc : N) : bool := ((5 <=? svc) && (svc <=? 10))%N.
 Definition SIG_TELNET_LINES := 7%N.          (* telnet: the lines/commands reported are not those of the byte stream *)
 Definition SIG_LDAP_MESSAGES := 8%N.
+Definition SIG_LIMITER_SUPPRESSES_REPORT := 10%N.  (* a datagram over the source's reply budget is not (fully) reported *)
+Definition SIG_LIMITER_ENDS_DATAGRAM := 11%N.   (* memcached-udp: a refusal by the limiter ends the datagram's command loop *)
 Definition SIG_SMTP_STALE_CHUNK := 9%N.      (* smtp: the reading before a828b58 - chunks of a transaction abandoned without RSET are reported with the next mail *)         (* ldap: not exactly one event per complete message *)
 Definition is_memcached (svc : N) : bool := beq svc SVC_MEMCACHED || beq svc SVC_MEMCACHED_UDP.
 Definition has_store (es : list event) : bool := existsb (fun e => beq (ev_ty e) EV_MC_STORE) es.
 
 Definition case_sig (c : case) : N :=
-  let exp := reference (c_svc c) (c_stream c) in
+  let exp := reference_segs (c_svc c) (c_segs c) in
   let got := (c_events c, c_code c) in
   if obs_eqb exp got then 0%N
   else if is_memcached (c_svc c) && (has_store (fst exp) || has_store (fst got)) then SIG_MEMCACHED_STORAGE
   else if is_http_family (c_svc c) && (length (fst got) <? length (fst exp)) then SIG_HTTP_REQUEST_LOST
   else if is_http_family (c_svc c) && (length (fst got) =? length (fst exp)) then SIG_HTTP_SHORT_BODY
   else if beq (c_svc c) SVC_SMTP && obs_eqb (seg_obs (smtp_prog false (fuel_for (c_stream c)) SHello 0 []) (c_segs c)) got then SIG_SMTP_STALE_CHUNK
+  else if beq (c_svc c) (SEQ_BASE + SVC_MEMCACHED_UDP)%N then SIG_LIMITER_ENDS_DATAGRAM
+  else if (SEQ_BASE <=? c_svc c)%N then SIG_LIMITER_SUPPRESSES_REPORT
   else if beq (c_svc c) SVC_TELNET then SIG_TELNET_LINES
   else if beq (c_svc c) SVC_LDAP then SIG_LDAP_MESSAGES
   else if beq (c_svc c) SVC_DNS && (match fst got with [] => true | _ => false end) then SIG_UDP_WRAPPED
@@ -82,7 +86,7 @@ Definition tags (cs : list case) : list (N * N) :=
     let svc := c_svc c in
     let s := c_stream c in
     let p := impl_prog svc (fuel_for s) in
-    let exp := reference svc s in
+    let exp := reference_segs svc (c_segs c) in
     (c_id c,
      match fst exp, c_events c with
      | [], [] => 0
